@@ -258,7 +258,7 @@ def run_cpp(spec: Spec, text: str, corpus: str, n_docs: int, base: pathlib.Path)
         for f, rc, err in results:
             if rc != 0:
                 kind = "driver-does-not-compile" if f == driver else "sdk-does-not-compile"
-                broken += [(f"{kind}:{sig}", ex) for sig, ex in _all_signatures(err, spec, 3)]
+                broken += [(f"{kind}:{sig}", ex) for sig, ex in _all_signatures(err, spec, 1)]  # later g++ errors of a unit are cascades
         if broken:
             return ("broken", broken)
         exe = d / "c09_driver"
